@@ -147,6 +147,7 @@ func c08GenerateN(r *common.Rand, n int) mCase {
 	g.n = n
 	u := common.Small
 	u.TSMax = 4
+	u.Extreme = 4 // created_at at the ends of int64 (comparisons through time.Unix or by subtraction go wrong there)
 	np := 3 + r.Intn(5)
 	for i := 0; i < np; i++ {
 		g.pool = append(g.pool, u.Event(r, i))
@@ -204,6 +205,65 @@ func c08GenerateN(r *common.Rand, n int) mCase {
 			queues[i] = queues[i][1:]
 		}
 	}
+	// a child message that directly follows a client message overtakes the broadcast of that client message
+	for k := 0; k+1 < len(c.Steps); k++ {
+		if a, b := c.Steps[k], &c.Steps[k+1]; a.K != "child" && b.K == "child" && b.I >= 1 && r.Chance(40) {
+			b.Early = true
+		}
+	}
+	return c
+}
+
+// c08LastAnswerRace: one REQ; every child but one (the "late" one, never child 0) sends its stored events
+// and its EOSE; then the client sends CLOSE for the subscription (or the same REQ again, or a CLOSE for
+// another id), and the late child's EOSE (or a stored event followed by its EOSE) overtakes the broadcast of
+// that client message; then a live event.  After a CLOSE nothing of the subscription may come out any more,
+// after a re-issued REQ the merged EOSE is due only when every child has answered again.
+func c08LastAnswerRace(r *common.Rand) mCase {
+	g := &c08Gen{r: r}
+	g.n = []int{2, 2, 3, 3, 4}[r.Intn(5)]
+	u := common.Small
+	u.TSMax = 4
+	for i := 0; i < 5; i++ {
+		e := u.Event(r, i)
+		e.Kind = 1
+		g.pool = append(g.pool, e)
+	}
+	c := mCase{N: g.n}
+	late := 1 + r.Intn(g.n-1)
+	fs := []common.JFilter{{Kinds: common.Ptr([]int64{1})}}
+	c.Steps = append(c.Steps, mStep{K: "req", Sub: "s1", Fs: fs})
+	var order []int
+	for i := 0; i < g.n; i++ {
+		if i != late {
+			order = append(order, i)
+		}
+	}
+	for a := len(order) - 1; a > 0; a-- {
+		b := r.Intn(a + 1)
+		order[a], order[b] = order[b], order[a]
+	}
+	for _, i := range order {
+		if r.Chance(50) {
+			c.Steps = append(c.Steps, mStep{K: "child", I: i, M: g.childMsgEvent("s1", common.Pick(r, g.pool))})
+		}
+		c.Steps = append(c.Steps, mStep{K: "child", I: i, M: &mMsg{T: "eose", Sub: "s1"}})
+	}
+	switch x := r.Intn(10); {
+	case x < 6:
+		c.Steps = append(c.Steps, mStep{K: "close", Sub: "s1"})
+	case x < 8:
+		c.Steps = append(c.Steps, mStep{K: "req", Sub: "s1", Fs: fs})
+	default:
+		c.Steps = append(c.Steps, mStep{K: "close", Sub: "s2"})
+	}
+	if r.Chance(35) {
+		c.Steps = append(c.Steps, mStep{K: "child", I: late, M: g.childMsgEvent("s1", common.Pick(r, g.pool)), Early: true})
+		c.Steps = append(c.Steps, mStep{K: "child", I: late, M: &mMsg{T: "eose", Sub: "s1"}})
+	} else {
+		c.Steps = append(c.Steps, mStep{K: "child", I: late, M: &mMsg{T: "eose", Sub: "s1"}, Early: true})
+	}
+	c.Steps = append(c.Steps, mStep{K: "child", I: r.Intn(g.n), M: g.childMsgEvent("s1", common.Pick(r, g.pool))})
 	return c
 }
 
@@ -285,6 +345,11 @@ func init() {
 			}
 			for i := 0; i < n; i++ {
 				cases = append(cases, c08Generate(root.Fork(uint64(i))))
+			}
+			// the client takes a step (CLOSE, or the REQ again) while the answer of the last child is on its way: n/15 histories
+			races := root.Fork(1 << 42)
+			for i := 0; i < n/15; i++ {
+				cases = append(cases, c08LastAnswerRace(races.Fork(uint64(i))))
 			}
 			// one handler value serving several sessions: n/10 more histories
 			multi := root.Fork(1 << 40)
